@@ -6,6 +6,8 @@ use crate::seqx;
 use crate::gsweep;
 use crate::csweep;
 use crate::sched;
+use crate::lockstep;
+use crate::progsweep;
 use crate::seqx::Out;
 use serde_json::{json, Value};
 
@@ -158,6 +160,44 @@ pub fn plan(prop: &str, tier: &str) -> Option<Plan> {
                 },
             })
         }
+        "C15" => {
+            let mut jobs = Vec::new();
+            for f in ["sync_digraph", "sync_ungraph"] {
+                let read: Vec<(usize, usize, usize)> = if tier == "quick" { vec![(2, 3, 2), (3, 2, 4)] } else { vec![(2, 4, 4), (3, 3, 16), (4, 2, 8)] };
+                for (n, l, sh) in read {
+                    jobs.extend(sharded(prop, "lockstep", f, tier, json!({"n": n, "max_l": l, "mode": "read"}), sh));
+                }
+                let muts: Vec<(usize, usize, usize)> = if tier == "quick" { vec![(2, 4, 2), (3, 3, 2)] } else { vec![(2, 5, 2), (3, 4, 2), (4, 3, 1)] };
+                for (n, l, v) in muts {
+                    jobs.push(job(prop, "lockstep", f, tier, json!({"n": n, "max_l": l, "mode": "mutate", "vals": v})));
+                }
+            }
+            Some(Plan {
+                jobs,
+                level: "model_checking".into(),
+                rule: "lock-step product exploration: (a) BFS over the plain flavour's adjacency state space, every transition applied to a plain and a sync object built from the same history, returns and complete observations compared; (b) on every canonical shape the whole read-only API (queries, comparison operators, edge equality, every search/ordering configuration with every filter subset, container calls, scc, DOT, JSON/CBOR) is run on both flavours and the transcripts compared entry by entry. evaluations = transitions + transcript entries compared".into(),
+                bounds: json!({"quick": "read: (2 nodes,<=3 edges),(3,<=2); mutate: (2,4,2 values),(3,3,2)", "thorough": "read: (2,4),(3,3),(4,2); mutate: (2,5,2),(3,4,2),(4,3,1)"}),
+                exhaustive: true,
+                assumptions: vec![
+                    "only calls present in both members of a pair are compared; sizeof() (bytes of the representation) is not a key/value result and is excluded".into(),
+                    "a call that ends abnormally on both sides is not a divergence (C03/C20 report it)".into(),
+                ],
+            })
+        }
+        "C16" => Some(Plan {
+            jobs: vec![
+                job(prop, "progsweep", "sync", tier, json!({"hooks": true})),
+                job(prop, "progsweep", "sync", tier, json!({"hooks": false})),
+            ],
+            level: "exploration".into(),
+            rule: "the full lattice of auto-trait classes {Send+Sync, Send+!Sync, !Send+Sync, !Send+!Sync}^3 for (K, N, E), two structurally different witness types per class, x {Node, Edge, Graph} of the four flavours x {Send, Sync}: one probe program turns every obligation into a constant decided by the compiler's trait solver and the table is compared with the biconditional; plus universally quantified obligations (generic over K, N, E) that must type-check (positive) or be rejected with E0277 (negative), each compiled separately; built against the working tree with hooks on and off. evaluations = table entries + generic obligations; nontrivial = entries with at least one non-Send+Sync payload + generic obligations".into(),
+            bounds: json!({"classes": 64, "witness_families": 2, "types": 12, "traits": 2, "generic_obligations": "see counters"}),
+            exhaustive: true,
+            assumptions: vec![
+                "trait bounds in gdsl mention no trait that separates two witnesses of the same auto-trait class".into(),
+                "the last clause of the property (no safe program can race on a payload) is the standard meaning of Send/Sync and is not separately explored".into(),
+            ],
+        }),
         "C17" => {
             let known = KnownFindings::load(&format!("{}/known_findings.json", crate::verif_dir()));
             let mut jobs = Vec::new();
@@ -208,6 +248,15 @@ pub fn work(job: &Job, out: &mut Out) {
         "gsweep" => crate::with_flavor!(job.flavour.as_str(), F => gsweep::sweep::<F>(job, out)),
         "csweep" => crate::with_flavor!(job.flavour.as_str(), F => csweep::sweep::<F>(job, out)),
         "sched" => crate::with_sync_flavor!(job.flavour.as_str(), F => sched::sweep::<F>(job, out)),
+        "progsweep" => match job.property.as_str() {
+            "C16" => progsweep::c16(job, out),
+            other => panic!("GDSL_MC_HARNESS: progsweep has no sweep for {}", other),
+        },
+        "lockstep" => match job.flavour.as_str() {
+            "sync_digraph" => lockstep::sweep_pair::<crate::flavor::Di, crate::flavor::SDi>(job, out),
+            "sync_ungraph" => lockstep::sweep_pair::<crate::flavor::Un, crate::flavor::SUn>(job, out),
+            other => panic!("GDSL_MC_HARNESS: lockstep needs a sync flavour, got {}", other),
+        },
         other => panic!("GDSL_MC_HARNESS: unknown engine {}", other),
     }
 }
@@ -218,6 +267,15 @@ pub fn replay(property: &str, engine: &str, flavour: &str, case: &Value) -> Vec<
         "gsweep" => crate::with_flavor!(flavour, F => gsweep::replay::<F>(property, case)),
         "csweep" => crate::with_flavor!(flavour, F => csweep::replay::<F>(property, case)),
         "sched" => crate::with_sync_flavor!(flavour, F => sched::replay::<F>(property, case)),
+        "progsweep" => match property {
+            "C16" => progsweep::replay_c16(property, case),
+            other => panic!("GDSL_MC_HARNESS: progsweep has no replay for {}", other),
+        },
+        "lockstep" => match flavour {
+            "sync_digraph" => lockstep::replay_pair::<crate::flavor::Di, crate::flavor::SDi>(property, case),
+            "sync_ungraph" => lockstep::replay_pair::<crate::flavor::Un, crate::flavor::SUn>(property, case),
+            other => panic!("GDSL_MC_HARNESS: lockstep needs a sync flavour, got {}", other),
+        },
         other => panic!("GDSL_MC_HARNESS: unknown engine {}", other),
     }
 }
